@@ -84,7 +84,7 @@ CLAIMED = {
     technique="deductive verification: loop invariants, z3; replay on the compiled code",
     design="DESIGN.md section 5 C12"),
  "C14": dict(
-    text="Python access paths by symbolic execution: IterMesh.__next__ definite assignment on every path and the frequency expression sqrt|e| sign(e) factor; Phonopy.init_mesh constructs Mesh and IterMesh from equal values of every common parameter (mesh as numbers and as length) and hands both the primitive cell's point-group operations; QpointsPhonon._run buffer ownership (arrays collected for output are not overwritten in place, for both values of use_openmp and all option combinations); BandStructure._solve_dm_on_path with band connection re-orders eigenvalues, eigenvector columns and group velocities by the same band order. GroupVelocity.run history independence: from an entry state with arbitrary _directions[0] / _perturbation, the state seen by _calculate_group_velocity_at_q is a function of this call's arguments only (syntactic independence + default direction (1,2,3)/sqrt(14)); q-point layout obligation of run_dynamical_matrix_solver_c.",
+    text="Python access paths by symbolic execution: IterMesh.__next__ definite assignment on every path and the frequency expression sqrt|e| sign(e) factor; Phonopy.init_mesh constructs Mesh and IterMesh from equal values of every common parameter (mesh as numbers and as length) and hands both the primitive cell's point-group operations; QpointsPhonon._run buffer ownership (arrays collected for output are not overwritten in place, for both values of use_openmp and all option combinations); BandStructure._solve_dm_on_path with band connection re-orders eigenvalues, eigenvector columns and group velocities by the same band order. GroupVelocity.run history independence: from an entry state with arbitrary _directions[0] / _perturbation, the state seen by _calculate_group_velocity_at_q is a function of this call's arguments only (syntactic independence + default direction (1,2,3)/sqrt(14)); q-point layout obligation of run_dynamical_matrix_solver_c. Mesh.__iter__ / IterMesh.__iter__ start at q-point 0 from any counter value (finding E19, repaired by a fix: commit).",
     note=TRUST + "numpy arrays are abstracted with a buffer-ownership model (views share buffers; conservative). Loops over abstracted sequences are executed as one generic iteration. NOT decided: numerical equality of the spectra across paths (reduces to C02), yaml/hdf5 output. Findings E1, E12, E14 repaired by fix: commits.",
     technique="deductive verification: symbolic execution of the Python source with an abstract buffer-ownership model",
     design="DESIGN.md section 5 C14"),
